@@ -34,6 +34,12 @@ def inject(dst):
             with open(os.path.join(root, f)) as src, open(target, "a") as out:
                 out.write("\n" + src.read())
             touched.append(rel)
+    # crate-level attribute for the harness build only (inner attributes must come first, so this one is prepended):
+    # the map stand-ins of c02_attack_store_wire name std's HashMap with its allocator parameter
+    librs = os.path.join(dst, "src", "lib.rs")
+    if os.path.isfile(librs):
+        body = open(librs).read()
+        open(librs, "w").write("#![cfg_attr(kani, feature(allocator_api))]\n" + body)
     files_root = os.path.join(VERIF, "harness", "files")
     for root, _, files in os.walk(files_root):
         for f in files:
